@@ -109,7 +109,31 @@ MUTATIONS = [
     ("I02", "info", BMAD, 'isinstance(bmad_parsed, dict) and "element_type" in bmad_parsed', "isinstance(bmad_parsed, dict)", "missing element_type: KeyError instead of ValueError (which exception is not recorded)"),
     ("I03", "info", ELE, 'elif parsed["element_type"] == "kick":', 'elif "kick" == parsed["element_type"]:', "comparison written the other way round"),
 ]
-EXTRA_MUTATIONS = []        # filled by the later parts (front end, LatticeJSON) below
+EXTRA_MUTATIONS = [
+    # ---- latticejson.py
+    ("J01", "detect", LJ, "        cell.append(element.name)", "        cell.append(element_name)", "convert_segment: stale element_name appended (finding F11 reintroduced)"),
+    ("J02", "detect", LJ, "            lattices.update(segment_lattices)\n", "", "convert_segment: lattices of a sub-segment dropped"),
+    ("J03", "detect", LJ, "    lattices[segment.name] = cell\n", '    lattices["cell"] = cell\n', "convert_segment: segment stored under a fixed key"),
+    ("J04", "detect", LJ, 'if element_name in lattice_dict["lattices"]:', 'if element_name not in lattice_dict["elements"]:', "parse_segment: elements looked up before lattices"),
+    ("J05", "detect", LJ, '        if feature != "name"\n', "", "convert_element: name written among the parameters"),
+    ("J06", "detect", LJ, "    return cheetah.Segment(elements=elements, name=name)", "    return cheetah.Segment(elements=elements[::-1], name=name)", "parse_segment: elements reversed"),
+    ("J07", "detect", LJ, "elements[element_name] = [element_class, element_params]", "elements[element_name] = [element_params, element_class]", "convert_segment: entry written as [params, class]"),
+    ("J08", "detect", LJ, 'params = lattice_dict["elements"][name][1]', 'params = lattice_dict["elements"][name][0]', "parse_element: params read from entry[0]"),
+    ("J09", "detect", LJ, "        elements.append(new_element)", "        elements.insert(0, new_element)", "parse_segment: elements prepended"),
+    ("J10", "detect", LJ, "            elements.update(segment_elements)\n            lattices.update(segment_lattices)", "            lattices.update(segment_lattices)\n            elements = segment_elements", "convert_segment: elements replaced, not merged"),
+    ("J11", "detect", LJ, "    return element.name, element.__class__.__name__, params", '    return element.name, "Drift", params', "convert_element: class name constant"),
+    # ---- line front end
+    ("F01", "detect", BMAD, 'lines, delimiter="&", remove_delimiter=True', 'lines, delimiter="&", remove_delimiter=False', "bmad: continuation mark & kept"),
+    ("F02", "detect", ELE, 'merged_lines, delimiter=",", remove_delimiter=False', 'merged_lines, delimiter=";", remove_delimiter=False', "elegant: second pass on another delimiter"),
+    ("F03", "detect", ELE, "    context = parse_lines(merged_lines)", "    context = parse_lines(lines)", "elegant: the unmerged lines are parsed"),
+    ("F04", "detect", NML, 'pattern = r"([a-z0-9_\\.]+)\\s*\\:\\s*([a-z0-9_]+)\\s*(\\,(.*))?"', 'pattern = r"([a-z0-9_]+)\\s*\\:\\s*([a-z0-9_]+)\\s*(\\,(.*))?"', "define_element: dots no longer allowed in element names"),
+    ("F05", "detect", NML, "    for i in range(len(merged_lines) - 1):", "    for i in range(len(merged_lines)):", "merge loop: last index visited (pinned AST)"),
+    ("F06", "detect", NML, "merged_lines[i][:-1] + merged_lines[i + num_added_lines]", "merged_lines[i][:-2] + merged_lines[i + num_added_lines]", "merge loop: two characters removed (pinned AST)"),
+    ("K12", "ok", NML, ("re", r"\bnum_added_lines\b"), "k", "merge loop: local variable renamed (pin is up to local names)"),
+    ("K13", "ok", NML, "    # Prune None lines\n", "    # drop the holes\n\n", "merge loop: comment changed"),
+    ("K14", "ok", LJ, ("re", r"\bcell\b(?!\")"), "names", "convert_segment: local variable cell renamed"),
+    ("K15", "ok", LJ, "    Deconstruct a segment into its name, a list of its elements and a dictionary of", "    Take a segment apart into its name, a list of its elements and a dictionary of", "docstring of convert_segment changed"),
+]
 CLASS_MACHINERY = set()     # ids of mutations that do not change a translated function's text but what the reading assumes
 
 
